@@ -170,9 +170,9 @@ Example blockdep_example :
 Proof. cbv zeta. split; vm_compute; reflexivity. Qed.
 
 (* ------------------------------------------------------------------ footprint_overapprox *)
-(* Do the per-tile bounding ranges of get_address_ranges (the ranges get_op_memory_accesses hands
-   to the conflict test, and calc_blockdep uses to classify overlap) contain every element of the
-   feature map?  Only if tile 3 is never in use without tile 2. *)
+(* The per-tile bounding ranges of get_address_ranges (the ranges get_op_memory_accesses hands to the
+   conflict test, and calc_blockdep uses to classify overlap) contain every element of the feature
+   map, so the conflict relation used is a superset of the byte-level one. *)
 Lemma chan_mono sc e c c' :
   0 <= e -> 16 * e <= sc -> c <= c' ->
   (c / 16) * sc + (c mod 16) * e <= (c' / 16) * sc + (c' mod 16) * e.
@@ -227,20 +227,19 @@ Definition covered_by (fm : fmap) (y x c : Z) (l : list (option arange)) : Prop 
     a <= get_address fm (get_strides fm) y x c /\
     get_address fm (get_strides fm) y x c + fm_elem fm <= a + len.
 
-(* PARTIAL: holds when tile 3 (right of width_0, below height_1) is not in use without tile 2
-   (left of width_0, below height_0) *)
-Theorem footprint_overapprox_partial_lemma fm y x c :
+(* FULL (code as repaired by repo commit de3dc4c): every element of the feature map, whichever of the
+   four tiles it lives in, lies in one of the reported bounding ranges *)
+Theorem footprint_overapprox_lemma fm y x c :
   strides_ok fm ->
-  (fm_w fm > fm_w0 fm -> fm_h fm > fm_h1 fm -> fm_h fm > fm_h0 fm) ->
   0 <= y < fm_h fm -> 0 <= x < fm_w fm -> 0 <= c < fm_d fm ->
   covered_by fm y x c (get_address_ranges fm).
 Proof.
   unfold strides_ok, covered_by, get_address_ranges. destruct (get_strides fm) as [[s_h s_w] s_d] eqn:Est.
-  intros (Hsh & Hsw & He & Hsd) Ht Hy Hx Hc. unfold get_address_range.
+  intros (Hsh & Hsw & He & Hsd) Hy Hx Hc. unfold get_address_range.
   destruct (Z.leb_spec (fm_w0 fm) x) as [A|A]; [destruct (Z.leb_spec (fm_h1 fm) y) as [B|B] | destruct (Z.leb_spec (fm_h0 fm) y) as [B|B]].
   - (* tile 3 *)
     destruct (Z.gtb_spec (fm_w fm) (fm_w0 fm)) as [G1|G1]; [|lia].
-    destruct (Z.gtb_spec (fm_h fm) (fm_h0 fm)) as [G2|G2]; [|lia].
+    destruct (Z.gtb_spec (fm_h fm) (fm_h1 fm)) as [G2|G2]; [|lia]. cbn [andb].
     assert (LU : get_address fm (s_h, s_w, s_d) (fm_h1 fm) (fm_w0 fm) (0) <= get_address fm (s_h, s_w, s_d) y x c /\
                  get_address fm (s_h, s_w, s_d) y x c <= get_address fm (s_h, s_w, s_d) (fm_h fm - 1) (fm_w fm - 1) (fm_d fm - 1)).
     { apply address_between; try assumption; try lia. }
@@ -264,10 +263,10 @@ Proof.
     eexists. eexists. split; [left; reflexivity|]. lia.
 Qed.
 
-(* REFUTED at full strength: an 8x8x16 NHWC int8 feature map whose left column is one tile
-   (height_0 = 8) and whose right column is split (height_1 = 4, width_0 = 4): element (4,4,0) lives in
-   tile 3 at address 0x2000, and no range of get_address_ranges contains it (tile 3 is only reported
-   when tile 2 is in use) *)
+(* The code before repo commit de3dc4c ([get_address_ranges_old]: tile 3 reported only when tile 2 is
+   in use) did NOT have this property: an 8x8x16 NHWC int8 feature map whose left column is one tile
+   (height_0 = 8) and whose right column is split (height_1 = 4, width_0 = 4) has element (4,4,0) in
+   tile 3 at address 0x2000, in no range the old code reported.  The repaired code covers it. *)
 Definition refuting_fm : fmap :=
   {| fm_region := 1; fm_h := 8; fm_w := 8; fm_d := 16; fm_h0 := 8; fm_h1 := 4; fm_w0 := 4;
      fm_a0 := 0; fm_a1 := 4096; fm_a2 := 0; fm_a3 := 8192; fm_b16 := false; fm_elem := 1;
@@ -286,17 +285,19 @@ Proof.
   rewrite Z.eqb_refl. cbn [andb]. apply andb_true_iff. split; [apply Z.leb_le | apply Z.leb_le]; assumption.
 Qed.
 
-Theorem footprint_overapprox_refuted_lemma :
+Theorem footprint_overapprox_old_code_refuted_lemma :
   exists fm y x c,
     strides_ok fm /\ 0 <= y < fm_h fm /\ 0 <= x < fm_w fm /\ 0 <= c < fm_d fm /\
     get_address fm (get_strides fm) y x c = 8192 /\
-    get_address_ranges fm = [Some (1, 0, 960); Some (1, 4096, 448); None; None] /\
-    ~ covered_by fm y x c (get_address_ranges fm).
+    get_address_ranges_old fm = [Some (1, 0, 960); Some (1, 4096, 448); None; None] /\
+    ~ covered_by fm y x c (get_address_ranges_old fm) /\
+    get_address_ranges fm = [Some (1, 0, 960); Some (1, 4096, 448); None; Some (1, 8192, 448)].
 Proof.
   exists refuting_fm, 4, 4, 0.
   split. { unfold strides_ok. cbn. repeat split; try lia; try discriminate. }
   split. { cbn; lia. } split. { cbn; lia. } split. { cbn; lia. }
   split. { vm_compute; reflexivity. } split. { vm_compute; reflexivity. }
+  split; [|vm_compute; reflexivity].
   intros H. apply covered_byb_complete in H. vm_compute in H. discriminate.
 Qed.
 
@@ -322,15 +323,14 @@ Lemma gen_overlaps_eq g a1 l1 a2 l2 :
   ranges_overlap (g, a1, l1) (g, a2, l2) = GenNumeric.overlaps a1 (a1 + l1) a2 (a2 + l2).
 Proof. unfold ranges_overlap, GenNumeric.overlaps. rewrite Z.eqb_refl. reflexivity. Qed.
 
-(* the hypotheses of footprint_overapprox_partial hold for a four-tile NHCWB16 int16 feature map
+(* the hypothesis of footprint_overapprox holds for a four-tile NHCWB16 int16 feature map
    (test_get_address_ranges_4_tiles of the repository), and its ranges are the suite's *)
 Example footprint_example :
   let fm := {| fm_region := 6; fm_h := 50; fm_w := 10; fm_d := 20; fm_h0 := 30; fm_h1 := 10; fm_w0 := 3;
                fm_a0 := 16; fm_a1 := 32000; fm_a2 := 8000; fm_a3 := 16000; fm_b16 := true; fm_elem := 2;
                fm_has_strides := false; fm_sh := 0; fm_sw := 0; fm_sd := 0 |} in
-  strides_ok fm /\ (fm_w fm > fm_w0 fm -> fm_h fm > fm_h1 fm -> fm_h fm > fm_h0 fm) /\
+  strides_ok fm /\
   get_address_ranges fm = [Some (6, 16, 18952); Some (6, 32000, 6280); Some (6, 8000, 12552); Some (6, 16000, 25480)].
 Proof.
-  cbv zeta. split; [unfold strides_ok; cbn; repeat split; try lia|].
-  split; [cbn; lia | vm_compute; reflexivity].
+  cbv zeta. split; [unfold strides_ok; cbn; repeat split; try lia | vm_compute; reflexivity].
 Qed.
